@@ -35,8 +35,8 @@ M_LinkTypes == {%s}
        ', '.join(tla(t) for t in linktypes), extra_defs)
 
 
-def cfg_text(max_circs, max_objs, max_steps, invariants=(), properties=(), view=None, min_emit=2, one_in=1):
-    s = 'SPECIFICATION Spec\nCONSTANTS MaxCircs = %d MaxObjs = %d MaxSteps = %d MinEmit = %d EmitOneIn = %d\n' % (max_circs, max_objs, max_steps, min_emit, one_in)
+def cfg_text(max_circs, max_objs, max_steps, invariants=(), properties=(), view=None, min_emit=2, one_in=1, deep=False):
+    s = 'SPECIFICATION Spec\nCONSTANTS MaxCircs = %d MaxObjs = %d MaxSteps = %d MinEmit = %d EmitOneIn = %d DeepRefs = %s\n' % (max_circs, max_objs, max_steps, min_emit, one_in, 'TRUE' if deep else 'FALSE')
     s += ' Menu <- M_Menu Reps <- M_Reps Configs <- M_Configs Acts <- M_Acts LinkTypes <- M_LinkTypes\n'
     if view:
         s += 'VIEW %s\n' % view
@@ -62,10 +62,10 @@ def parse_programs(out):
 
 def run_gen(name, menu, reps=(('fixed', 1),), configs=(DEFAULT_CFG,), acts=('NewCircuit', 'AddOp', 'Obs'),
             linktypes=('FB', 'JS', 'JE'), max_circs=1, max_objs=5, max_steps=5, simulate=None, depth=None,
-            workers=1, seed=1, cap=None, base='CircuitGen', invariants=('EmitProgram',), properties=(), timeout=600, view=None, min_emit=2, one_in=1):
+            workers=1, seed=1, cap=None, base='CircuitGen', invariants=('EmitProgram',), properties=(), timeout=600, view=None, min_emit=2, one_in=1, deep=False):
     mod = 'MCGen_' + name
     extra = ['-seed', str(seed)]
-    res = run_tlc(mod, cfg_text(max_circs, max_objs, max_steps, invariants, properties, view, min_emit, one_in), workers=workers,
+    res = run_tlc(mod, cfg_text(max_circs, max_objs, max_steps, invariants, properties, view, min_emit, one_in, deep), workers=workers,
                   simulate=simulate, depth=depth, extra=extra, name=mod, timeout=timeout,
                   modules={mod: wrapper(mod, menu, reps, configs, acts, linktypes, base=base)})
     progs = parse_programs(res.out)
